@@ -257,9 +257,11 @@ func propC03(t *rapid.T) {
 	ts := f.Tables()
 	inflate := rapid.IntRange(0, 199).Draw(t, "inflate") < map[bool]int{true: 6, false: 1}[tierThorough()]
 	if inflate {
-		ts = sgen.Inflate(ts, rapid.SampledFrom([]int{300, 1100, 2100}).Draw(t, "inflateTo"))
-		if !tierThorough() {
-			ts = sgen.Inflate(f.Tables(), 300)
+		if rapid.Bool().Draw(t, "longGroup") {
+			// one trip with thousands of stop times (one shape with thousands of points ...) followed by a fresh one
+			ts = sgen.LongGroup(ts, rapid.SampledFrom([]int{300, 1030, 4100, 8200}).Draw(t, "longGroupN"))
+		} else {
+			ts = sgen.Inflate(ts, rapid.SampledFrom([]int{300, 1100, 2100, 4200}).Draw(t, "inflateTo"))
 		}
 	}
 	k := rapid.IntRange(0, 6).Draw(t, "nEdits")
